@@ -293,6 +293,18 @@ def putGeneAt : List (Gene ν) → Nat → Gene ν → List (Gene ν)
 /-- a method that left the translatable subset: any agreement theorem about it fails -/
 def untranslatable (_construct : String) : MRes ν := .raised 0
 
+/-- what the evaluated `replicate` table (Operon/Gen/GenomeTables.lean) records about a child -/
+structure ChildView where
+  allow : Bool
+  sameCallback : Bool
+  rate : Bool
+  level : Option Level
+  generation : Nat
+  parentHashIsParents : Bool
+  logFlags : List Bool
+  parentUntouched : Bool
+  deriving Repr, DecidableEq
+
 /-- the gate settings a child is constructed with: (allow_mutations, on_mutation, mutation_rate > 0) -/
 structure Gate where
   allow : Bool
